@@ -1,0 +1,19 @@
+//go:build verif
+
+package avc
+
+// Property C19: the AVC decoder configuration record built from parameter sets carries exactly the supplied parameter sets.
+
+//@ func CreateAVCDecConfRec
+//@   ensures[C19] result1 == nil ==> result0 != nil && fresh(result0) && len(spsNalus) > 0
+//@   ensures[C19] result1 == nil && includePS ==> result0.SPSnalus == spsNalus && result0.PPSnalus == ppsNalus
+//@   ensures[C19] result1 == nil && !includePS ==> len(result0.SPSnalus) == 0 && len(result0.PPSnalus) == 0
+//@   ensures[C19] result1 == nil ==> result0.NumSPSExt == 0 && !result0.NoTrailingInfo
+//@   assigns nothing
+
+// The SPS parser only writes objects it allocates (byte reader, bit reader, SPS structure and its slices). ASSUMED, not proved:
+// the 370 frame obligations of this 300-line parser do not finish within the solver budget on the shared machine
+// (none was refuted); without a frame the call would havoc all byte memory, including the contents of string parameters.
+//@ func ParseSPSNALUnit
+//@   assigns nothing
+//@   trustkind frame
